@@ -640,6 +640,7 @@ func (d *Document) createWordFieldTOC(config *TOCConfig, entries []TOCEntry) []i
 				FontFamily: &FontFamily{ASCII: "宋体", HAnsi: "宋体", EastAsia: "宋体", CS: "Times New Roman"},
 				FontSize:   &FontSize{Val: "21"},
 			},
+			Tag:   tocLevelTag(config.MaxLevel),
 			ID:    &SDTID{Val: "147458718"},
 			Color: &SDTColor{Val: "DBDBDB"},
 			DocPartObj: &DocPartObj{
